@@ -1,26 +1,27 @@
 (* C07  Share placement is complete, respects read-only servers, maximizes spread.
-   Statements only; proofs in Proofs/Placement.v (and Proofs/Matching.v for the
-   Koenig certificate).  Model: Model/Placement.v = happiness_upload.share_placement
-   and helpers, after the two fixes recorded for C07 in known_findings.jsonl.
+   Statements only; proofs in Proofs/Placement*.v (and Proofs/Matching*.v for the flow
+   algorithm).  Model: Model/Placement.v = happiness_upload.share_placement and helpers,
+   after the two fixes recorded for C07 in known_findings.jsonl.
 
-   FULL STATEMENTS (the property), for all iteration orders `os`, all inputs with
-   wf (writable/read-only disjoint, >= 1 writable, existing shares on listed servers
-   and among `shares`) and all res with share_placement os .. = Some res:
-     placement_total          total_spec shares res
-     readonly_only_existing   readonly_spec readonly p2s res /\ known_spec peers readonly res
-     placement_maximal        maximal_spec peers readonly shares p2s res
-   PROVED HERE: the same with the extra hypothesis
-   `placement_certified os peers readonly shares p2s = true` (names ..._partial): the
-   boolean validator accepts the placement together with the vertex cover computed
-   from the read-only phase's last BFS.  placement_validator_sound (any inputs, any
-   claimed placement, any claimed cover) is unconditional.  Missing for the full
-   statements: `wf -> placement_certified = true` (flow invariant through three
-   phases and the optimality of their composition); Coq evaluates
-   placement_certified on every model-vs-implementation case of the harness, and the
-   three clauses are checked on the implementation itself for every layout with
-   <= 4 servers and <= 5 shares. *)
+   Quantification: every theorem holds for ALL iteration orders `os` (the order in
+   which CPython would iterate each set the code loops over) and all inputs; `res` is
+   any result the model returns (None = Python would raise / fuel exhausted / `os` is
+   not a permutation).
+     placement_total          FULL     every share number is assigned
+     readonly_only_existing   FULL     a read-only server gets only shares it holds;
+                                       every share goes to a listed server
+     placement_maximal        PARTIAL  proved with the extra hypothesis
+        `placement_certified os peers readonly shares p2s = true`: the boolean validator
+        accepts the placement together with the vertex cover computed from the read-only
+        phase's last BFS.  placement_validator_sound (any inputs, any claimed placement,
+        any claimed cover) is unconditional.  Missing for the full statement: optimality
+        of the composition of the three matching phases.  Coq evaluates
+        placement_certified on every model-vs-implementation case of the harness, and
+        the clause is checked on the implementation itself for every layout with
+        <= 4 servers and <= 5 shares. *)
 From Coq Require Import List NArith ZArith Bool.
-From Verif Require Import Model.Matching Model.Placement Proofs.Matching Proofs.Placement.
+From Verif Require Import Model.Matching Model.Placement Proofs.Matching Proofs.Placement
+     Proofs.PlacementStruct Proofs.PlacementReadonly.
 Import ListNotations.
 Local Open Scope N_scope.
 
@@ -41,21 +42,24 @@ Theorem placement_validator_sound :
 Proof. exact placement_valid_sound. Qed.
 Print Assumptions placement_validator_sound.
 
-Theorem placement_total_partial :
+(* clause 1 *)
+Theorem placement_total :
   forall os peers readonly shares p2s res,
-    placement_certified os peers readonly shares p2s = true ->
+    NoDup shares -> peers <> [] ->
     share_placement os peers readonly shares p2s = Some res ->
     total_spec shares res.
-Proof. exact total_of_certified. Qed.
-Print Assumptions placement_total_partial.
+Proof. exact placement_total_full. Qed.
+Print Assumptions placement_total.
 
-Theorem readonly_only_existing_partial :
+(* clause 2.  wf_input: writable and read-only servers are disjoint and existing shares
+   are reported only for listed servers. *)
+Theorem readonly_only_existing :
   forall os peers readonly shares p2s res,
-    placement_certified os peers readonly shares p2s = true ->
+    wf_input peers readonly p2s ->
     share_placement os peers readonly shares p2s = Some res ->
     readonly_spec readonly p2s res /\ known_spec peers readonly res.
-Proof. exact readonly_of_certified. Qed.
-Print Assumptions readonly_only_existing_partial.
+Proof. exact readonly_only_existing_full. Qed.
+Print Assumptions readonly_only_existing.
 
 Theorem placement_maximal_partial :
   forall os peers readonly shares p2s res,
